@@ -480,6 +480,51 @@ func runC16(sf *sched, seed int64, emit emitter) error {
 // runExpiry: a connection authenticated with an expiring token is closed by
 // the server at that expiry, not before - unless disconnect-on-expiry is off.
 // With tenant: the connection is authenticated under a tenant of the upstream port's tenant table.
+// runStall: two listeners on one endpoint, one of them behind a relay that turns into a black hole (no FIN, no
+// RST, nothing carried any more). The server must notice through the session's keep-alive (30 s interval, 10 s
+// write timeout), end the handler and release registration and session; the other listener is unaffected.
+// DeltaMs = time from the stall to the release (99999 = never within the bound).
+func runStall(emit emitter) error {
+	n, err := psim.StartNode(psim.NodeOpts{ID: "a"})
+	if err != nil {
+		return err
+	}
+	defer n.Stop()
+	rel, err := psim.NewRelay(n.UpstreamAddr())
+	if err != nil {
+		return err
+	}
+	defer rel.Close()
+	u, err := psim.Listen(context.Background(), rel.Addr(), "e1", "u-stalled", "", "")
+	if err != nil {
+		return err
+	}
+	defer u.Shutdown()
+	u2, err := psim.Listen(context.Background(), n.UpstreamAddr(), "e1", "u-direct", "", "")
+	if err != nil {
+		return err
+	}
+	defer u2.Shutdown()
+	srv := n.Server.VerifUpstream()
+	if !psim.WaitFor(5*time.Second, func() bool { return srv.VerifOpenSessions() == 2 }) {
+		return fmt.Errorf("stall scenario: listeners did not register")
+	}
+	rel.Stall()
+	t0 := time.Now()
+	s := &Step{Op: "Stall", DeltaMs: 99999}
+	for time.Since(t0) < 50*time.Second {
+		if srv.VerifOpenSessions() < 2 {
+			s.DeltaMs = int(time.Since(t0) / time.Millisecond)
+			break
+		}
+		time.Sleep(20 * time.Millisecond)
+	}
+	time.Sleep(200 * time.Millisecond) // the deferred clean-up of the handler
+	observeLife(n, s)
+	emit(s)
+	return nil
+}
+
 func runExpiry(disabled bool, tenant string, emit emitter) error {
 	ac := auth.Config{HMACSecretKey: "secret", DisableDisconnectOnExpiry: disabled}
 	opts := psim.NodeOpts{ID: "a", Auth: ac}
